@@ -24,7 +24,7 @@ out = ['# Seeded changes', '',
        'Each directory holds one change to soupsieve written by a fresh sub-agent that was given only the text of one property and a',
        'scratch worktree of `/repo` (nothing from `/verif`): `patch.diff` (applies to `/repo` HEAD), `demo.py` (exits 0 on the clean tree, 1',
        'on the changed tree, run as `PYTHONPATH=/repo /venv/bin/python demo.py`), `meta.json` (property, what the change does, what it needs to',
-       'manifest, how it was confirmed). Every change compiles and passes the unedited 381-test suite. `-a` … `-f` = rounds 1 … 6 (from round 2 on',
+       'manifest, how it was confirmed). Every change compiles and passes the unedited 381-test suite. `-a` … `-g` = rounds 1 … 7 (from round 2 on',
        'the agents were asked to differ in mechanism from what earlier rounds had produced; a later round sees only a list of over-used',
        'mechanisms, never the checks). `bin/seedall` re-runs all of them and rewrites `RESULTS.json` (first seed only, `VERIF_ESCALATE_S=0`, so the',
        'table shows what ONE draw of the generators finds; the checks as registered repeat with further seeds on a changed tree);',
